@@ -9,12 +9,39 @@ import codes_common as CC
 THEOREMS = ['C07_no_space', 'C07_refuses', 'C07_accepts_only_codes', 'C07_only_value_error', 'C07_relay_shape',
             'normTz_spec', 'strip_last', 'C07_norm_kinds_end']
 
+SPEC_CODES = ['100', '60H', '110H', '400H84.0cm', '3000SC', '2000SC76.2cm', 'HJ', 'PV', 'LJ', 'TJ', 'SP7.26K', 'SP4K', 'DT1.5K', 'DT1K', 'HT7.26K',
+              'JT800', 'JT600', 'WT15.88K', 'WT9.08K', '4x100', '4x400', '3x800', 'MILE', 'MAR', 'HM', '5K', '10K', '20KW', '3000W', '5M', 'DEC', 'HEP',
+              'PEN', 'XC', 'SLJ', 'BT', 'OT', '24HR', '4x100H', '1.5M', '2.5K']
+PUNCT = ',;:_!?#+*/=~\\'
+
+
+def punct_refusals(ctx):
+    """the refusal clause on strings no reading takes for an event code: a customary code with a punctuation mark
+    put in place of a character or between two characters (the decimal comma 'DT1,5K', 'SP7:26K', '4x1_00', ...)"""
+    vlib.use_repo()
+    import athlib
+    n = 0
+    for c in SPEC_CODES:
+        for i in range(len(c) + 1):
+            for p in PUNCT:
+                for t in ([c[:i] + p + c[i:]] + ([c[:i] + p + c[i + 1:]] if i < len(c) else [])):
+                    n += 1
+                    try:
+                        r = athlib.normalize_event_code(t); st = 'accepted, normalised to %r' % r
+                    except ValueError: continue
+                    except Exception as e: st = type(e).__name__
+                    ctx.fail('athlib.normalize_event_code', [t], 'ValueError (not an event code: %r with %r put in)' % (c, p), st, note='non-code not refused with ValueError',
+                             replay_py='result = athlib.normalize_event_code(%r)' % t)
+    ctx.count(n, 'punctuation_near_misses')
+
+
 def run(ctx):
     ctx.rule = ('the language of PAT_EVENT_CODE enumerated from its syntax tree (every alternative and optional part forced, digit runs 0-4 incl. non-ASCII digits, every white-space symbol) '
                 '+ case / spacing / unit-suffix / trailing-zero variants of each code (kept when still accepted) + near-miss strings; distinct = distinct strings; '
                 'non-trivial = accepted codes and their accepted variants')
     ctx.trusted += ['tools/gen_regex.py incl. the group map and the upper-casing map on symbols (checked over all code points), validated each run against re.match group spans',
                     'str.upper is modelled as ASCII upper-casing (accepted codes contain only ASCII letters, digits of any script, ".", white space)']
+    punct_refusals(ctx)                       # implementation only: runs even when the translation below fails
     g = gen.regex(ctx, ['PAT_EVENT_CODE', 'PAT_RELAYS'] + CC.FAMILIES)
     if g is None: return
     side, alpha, trees, mod, changed = g
